@@ -267,6 +267,26 @@ pub fn gen_cases(transport: &str, opts: &Opts, rng: &mut Rng) -> Vec<Case> {
             }
         }
     }
+    // (f) large messages: the delimiter straddles the sizes at which buffers / records / packets end
+    //     (BufReader 8 KiB, TLS record 16 KiB, SSH packet 32 KiB, pipe 64 KiB)
+    let sizes: Vec<usize> = if transport == "cli" { vec![4096, 8192, 16384, 32768] } else { vec![4096, 8192, 16384, 16385, 32768, 65536, 70000] };
+    for &l in &sizes {
+        for shift in [0usize, 3] {
+            // the delimiter of the first message begins `shift` bytes before offset l
+            let n = l - shift;
+            let mut body: Vec<u8> = (0..n).map(|i| if i % 97 == 96 { b']' } else { b'a' + (i % 23) as u8 }).collect();
+            if let Some(x) = body.last_mut() {
+                *x = b'z';
+            }
+            let s = wire(&[body, b"<a/>".to_vec()]);
+            cases.push(Case { transport: transport.into(), chunks: vec![s.clone()], end: End::Quiet });
+            cases.push(Case { transport: transport.into(), chunks: cut(&s, &[l]), end: End::Quiet });
+            if shift == 3 && (thorough || l <= 16385) {
+                cases.push(Case { transport: transport.into(), chunks: cut(&s, &[l]), end: End::Eof });
+                cases.push(Case { transport: transport.into(), chunks: cut(&s[..l], &[l / 2]), end: End::Eof });
+            }
+        }
+    }
     cases
 }
 
